@@ -44,28 +44,29 @@ End DedupParts.
 Section EvoParts.
   Variable gi : gen.
   Variable size : option nat.
-  Variable u : updk.
-  Variable tbl : list (list Z).
-  Notation repro := (fun (_ : list dna) (_ : unit) (ngen : Z) (_ : nat) => (nth (Z.to_nat (ngen - 1)) tbl [], tt)).
-  Notation updf := (fun (pop : list dna) (_ : unit) (step : nat) => (apply_upd u pop step, tt)).
-  Notation E := (Evolution gi size unit tt repro updf).
-  Notation replay := (ev_replay gi size unit updf).
-  Notation rel := (erel gi unit unit (fun x => x)).
-
-  Lemma Hupd_unit : forall pop (g1 g2 : unit) step, g1 = g2 ->
-    fst (updf pop g1 step) = fst (updf pop g2 step) /\ snd (updf pop g1 step) = snd (updf pop g2 step).
-  Proof. intros. subst. auto. Qed.
+  Variable G : Type.
+  Variable g0 : G.
+  Variable repro : list dna -> G -> Z -> nat -> list Z * G.
+  Variable updf : list dna -> G -> nat -> list dna * G.
+  Variable gobs : G -> list Z.
+  Variable V : Type.
+  Variable vis : G -> V.
+  Hypothesis Hupd : forall pop g1 g2 step, vis g1 = vis g2 ->
+    fst (updf pop g1 step) = fst (updf pop g2 step) /\ vis (snd (updf pop g1 step)) = vis (snd (updf pop g2 step)).
+  Notation E := (Evolution gi size G g0 repro updf gobs).
+  Notation replay := (ev_replay gi size G updf).
+  Notation rel := (erel gi G V vis).
 
   Lemma replay_same : forall acc acc' e, rel (fst acc) (fst acc') -> rel (fst (replay acc e)) (fst (replay acc' e)).
   Proof.
     intros [s ip] [t jp] [d ro] H. simpl in H. unfold ev_replay. simpl.
     destruct ro as [r|].
     - destruct (dfsn d).
-      + simpl. apply raise_erel, (readd_erel gi unit updf unit (fun x => x) Hupd_unit), bump_erel, H.
-      + destruct (feedback_erel gi size unit updf unit (fun x => x) Hupd_unit (ev_bump_np gi unit s) (ev_bump_np gi unit t) d r
+      + simpl. apply raise_erel, (readd_erel gi G updf V vis Hupd), bump_erel, H.
+      + destruct (feedback_erel gi size G updf V vis Hupd (ev_bump_np gi G s) (ev_bump_np gi G t) d r
                     (bump_erel _ _ _ _ _ _ H)) as [P Q].
-        destruct (ev_feedback gi size unit updf (ev_bump_np gi unit s) d r) as [d1 s1].
-        destruct (ev_feedback gi size unit updf (ev_bump_np gi unit t) d r) as [d2 s2].
+        destruct (ev_feedback gi size G updf (ev_bump_np gi G s) d r) as [d1 s1].
+        destruct (ev_feedback gi size G updf (ev_bump_np gi G t) d r) as [d2 s2].
         simpl in *. apply raise_erel. assumption.
     - simpl. apply raise_erel, bump_erel, H.
   Qed.
@@ -80,7 +81,7 @@ Section EvoParts.
     assert (rel (recover E (recover E (init E) h1) h2) (recover E (init E) (h1 ++ h2))) as R.
     { simpl. unfold ev_recover. rewrite fold_left_app.
       destruct (fold_left replay h1 _) as [s1 ip1] eqn:F1.
-      set (S1 := mkEv gi unit _ _ _ _ _ _ _ _).
+      set (S1 := mkEv gi G _ _ _ _ _ _ _ _).
       assert (rel S1 s1) as R1 by (subst S1; unfold erel; simpl; repeat split).
       pose proof (fold_same h2 (S1, []) (s1, ip1) R1) as R2.
       destruct (fold_left replay h2 (S1, [])) as [a ipa]. destruct (fold_left replay h2 (s1, ip1)) as [b ipb].
@@ -98,7 +99,9 @@ Proof.
   { intros b Hd. destruct b; try discriminate; simpl.
     - apply sweeping_parts.
     - apply random_parts.
-    - apply evolution_parts. }
+    - destruct u; try (apply evolution_parts with (V := unit) (vis := fun g => g); intros pop g1 g2 step E; subst; auto).
+      apply evolution_parts with (V := list dna) (vis := fst).
+      intros pop g1 g2 step E. unfold nsga2_updf. rewrite E. destruct (n <=? length pop); simpl; auto. }
   destruct a as [| sd t | a' hm au md ma | i sz u t]; try (apply Hb; reflexivity).
   simpl in Hr. apply negb_true_iff in Hr. apply (dedup_parts (denote m a') m hm au md ma (Hb a' Hr)).
 Qed.
